@@ -53,6 +53,7 @@ def K_HASH(tier_full="thorough"):
 # ---------------------------------------------------------------------------- layer M
 M_FUN = ["dbxxx.rs FileDbXxxInner::find_in_hash_buckets_kt"]
 M_TB = ["layer M runs the REAL src/filedb/inner/dbxxx.rs (re-read from /repo at every build) against abstract key/value/table stores written from the R=>M contract (kani/CONTRACTS.md): rewrite keeps the address iff the released sizing rule (spec::key_slot_chosen, shown equal to the crate's own computation for all inputs by k_kslot_*) fits the slot; dangling or freed addresses are assertion failures at the store",
+        "in the statistics harnesses RecordSizeStats::touch_size / LengthStats::touch_length are replaced (kani::stub) by a log of the touched values (the real containers are decided by k_touch_*)",
         "HashValue::hash_value is replaced (kani::stub) by the released placement hash of the bytes the key's derived Hash feeds to the hasher; harnesses k_hash_* show for all five key types and all keys up to 17 bytes that the crate's own hash_value() is that function",
         "the prose induction of DESIGN 2: every harness starts from an arbitrary state built from solver variables that satisfies I2 and asserts I2 afterwards"]
 M_BOUNDS = "ANY valid pre-state with 0..2 live entries (thorough: 0..3) over 1 or 2 buckets in any chain order; every key of 0..2 tracked bytes (+ 0..12 untracked padding bytes that only count for the slot size), every value of 0..2 bytes with a solver-chosen monotone slot-class function; every 8-aligned record address in [192, 2^56) (so every offset-field width 2..8); every legal small slot size left behind by earlier rewrites"
@@ -110,9 +111,12 @@ F_SCAN = ["htx.rs VarFile::next_key_piece_offset", "vfile.rs seek_from_start / s
 F_BKT = ["htx.rs VarFile::write_key_piece_offset", "htx.rs VarFile::read_key_piece_offset"]
 
 
+B_MEM = {"b_scan_g128": 8, "b_scan_g256": 14, "b_scan_g512": 20, "b_bucket_n256": 14, "b_scan_g64": 5, "b_scan_n16": 4}
+
+
 def B(name, what, cap=600, tier="quick", stub=False, **kw):
     kw.setdefault("assumptions", B_ASSUME)
-    return H("b", name, what, tier=tier, cap=cap, mem_gb=16, stubbing=True, **kw)
+    return H("b", name, what, tier=tier, cap=cap, mem_gb=24, stubbing=True, mem_est=B_MEM.get(name, 3), **kw)
 
 
 W_SCAN = "bucket scan contract with a universally quantified bucket j: next_key_piece_offset(n, idx) returns (r+1, head[r]) for the least non-empty bucket r >= idx, else (>= n, 0); no arithmetic overflow, read-only, file length unchanged, all three loops terminate (unwinding assertions)"
@@ -142,6 +146,7 @@ B_SYNC = B("b_sync_plumbing", "VarFile::flush / sync_all / sync_data reach the b
            functions=["vfile.rs VarFile::flush", "vfile.rs VarFile::sync_all", "vfile.rs VarFile::sync_data"])
 B_CODEC = [B("b_codec_" + k, "field codec %s: bytes = documented vu64 pattern of value(/8), width = encoded length, no other byte touched, reads back, reader stops behind the field" % k, bounds="ALL values of the field type", cap=400,
              functions=["vfile.rs write_/read_ %s" % k, "vu64::io"]) for k in ("offset", "size", "keylen", "vallen", "free_link")]
+B_ZEROL = B("b_zero_to_offset_long", "write_zero_to_offset over runs up to 2.3 KiB from arbitrary stale bytes: every byte of [pos, target) zero, nothing else changed, position and length right", cap=600, bounds="image of 2400 symbolic bytes, position and target symbolic", functions=["vfile.rs write_zero_to_offset"])
 B_ZERO = B("b_zero_to_offset", "write_zero_to_offset zeroes exactly [pos, target), never beyond, no-op when target <= pos", cap=300, functions=["vfile.rs write_zero_to_offset"])
 
 
@@ -164,6 +169,37 @@ A_ALL = [
     A("a_scalar_and_string", "get / includes_key / get_string / put_string / delete_string / is_empty = the primitive of the converted key composed with UTF-8 encoding / decoding", "any key, any map of <= 2 entries", ["lib.rs DbXxx::get", "lib.rs DbXxx::get_string", "lib.rs DbXxx::put_string", "lib.rs DbXxx::delete_string", "lib.rs DbXxx::includes_key", "lib.rs DbXxxBase::is_empty"]),
 ]
 
+
+# ---------------------------------------------------------------------------- layer R
+R_TB = ["layer R runs the REAL key.rs, val.rs, piece.rs and semtype.rs (re-read from /repo at every build via #[path]) over the slot-structured model of vfile::VarFile (kani/r/src/filedb/inner/vfile_model.rs): header words + <= 4 slots at 8-aligned offsets, each slot = the sequence of typed fields last written into it (Size, Len, Bytes|Link, Off, Off, Zero-to) with the real vu64 field widths; byte-level codec correctness is decided separately (b_codec_*)",
+        "PieceMgr::roundup, PieceMgr::free_piece_list_offset_of_header and the is_valid_key/is_valid_value table loops are replaced (kani::stub) by the loop-free functions of the frozen spec; harnesses k_class_roundup and k_class_lists show for ALL sizes that the real functions are those functions",
+        "an access that does not fit the sequential write discipline of the model fails a check whose message starts with MODEL-LIMIT: and makes the run inconclusive, never a violation"]
+R_ASSUME = ["level R: pre-state = any image of 2..4 slots that satisfies I1 (slots tile [192, end), complete used or free records, free records on the list of their size class); slot sizes = any of the 15 small classes or 1024 + 128k (k <= 24); payload lengths <= 1300 bytes (key records <= 300), first 3 payload bytes tracked; offsets stored in key records: any 8-aligned value < 2^56"]
+R_I1 = "I1 afterwards: every slot a complete record inside its bounds and zero-padded to exactly its end, slots tile the file, every free record on exactly the list of its size class, no slot linked twice"
+
+
+R_MEM = {"r_key_rewrite": 18, "r_key_new": 14, "r_val_rewrite": 11, "r_val_new": 9, "r_pop_large3": 5}
+
+
+def R(name, what, fn, cap=1500, tier="quick", may_unsat=None):
+    return H("r", name, what + "; " + R_I1, tier=tier, cap=cap, mem_gb=24, stubbing=True, bounds=R_ASSUME[0], functions=fn, assumptions=R_ASSUME, may_unsat=may_unsat, mem_est=R_MEM.get(name, 3))
+
+
+F_POP = ["piece.rs VarFile::pop_free_piece_list", "piece.rs VarFile::pop_free_piece_list_large", "piece.rs read_free_piece_size_next", "piece.rs read/write_free_piece_offset_on_header", "vfile.rs write_piece_clear (mirrored in the model)"]
+R_POPL = R("r_pop_large3", "first-fit pop from the shared large list holding 0..3 free slots of solver-chosen sizes in ANY list order: returns the first entry that is big enough, unlinks exactly it (head, middle or last), keeps the order of the rest, touches nothing else", F_POP, cap=1500)
+R_POPS = R("r_pop_small", "pop from a small class list (0..2 entries, any order, another class's list present): hands out the head of exactly that class and advances the head", F_POP, cap=900)
+R_PUSH = R("r_push", "push: the slot becomes head of the list of ITS size, linked to the old head, fully rewritten as a free record (size, zero length, link, zeros); other records untouched", ["piece.rs VarFile::push_free_piece_list"], cap=600)
+R_COUNT = R("r_count", "count_of_free_piece_list = number of slots on that list, for lists of 0..3 slots incl. large slots of different sizes on the shared list; read-only", ["piece.rs VarFile::count_of_free_piece_list", "piece.rs read_free_piece_size_next"], cap=600)
+F_VW = ["val.rs VarFileValueCache::write_piece", "val.rs ValuePiece::dat_write_piece_one", "val.rs ValuePiece::encoded_piece_size", "val.rs ValueFile::add_value_piece", "val.rs read_piece_only_value", "val.rs read_piece_only_value_length"] + F_POP + ["piece.rs VarFile::push_free_piece_list"]
+W_WR = "%s with a solver-chosen length next to a free-or-used slot and a used neighbour: the record stays in place iff it fits its slot, else reuses a suitable free slot (small: exact class; large: first fit, keeping the slot's own size) if there is one, else is appended with the slot size of the released sizing rule (file grows only then); documented field order; record never exceeds its slot; old slot of a moved record freed; neighbours untouched; reads back"
+R_VREW = R("r_val_rewrite", W_WR % "ValueFile::write_piece of an existing record", F_VW, cap=2400)
+R_VNEW = R("r_val_new", W_WR % "ValueFile::add_value_piece", F_VW, cap=2400, may_unsat=["in place", "old slot pushed onto a non-empty list"])
+F_KW = ["key.rs VarFileKeyCache::write_piece", "key.rs KeyPiece::dat_write_piece_one", "key.rs KeyPiece::encoded_piece_size", "key.rs KeyFile::add_key_piece", "key.rs read_piece", "key.rs read_piece_only_value_offset", "key.rs read_piece_only_key_length"] + F_POP + ["piece.rs VarFile::push_free_piece_list"]
+R_KREW = R("r_key_rewrite", W_WR % "KeyFile::write_piece of an existing key record with new value offset / chain link", F_KW, cap=3000, tier="thorough")
+R_KNEW = R("r_key_new", W_WR % "KeyFile::add_key_piece", F_KW, cap=3000, tier="thorough", may_unsat=["in place", "moved: offsets needed a bigger slot"])
+R_VDEL = R("r_val_delete", "delete_piece: the slot goes onto the free list of its own size as its head, file length unchanged", ["val.rs VarFileValueCache::delete_piece", "piece.rs VarFile::push_free_piece_list"], cap=600)
+R_WALK = R("r_val_walk", "sequential slot walk (PieceOffsetIter behind the slot-size statistics) over 0..3 tiled slots, free or used: every slot exactly once in address order, then None; terminates; read-only", ["piece.rs PieceOffsetIter::next_piece_offset", "val.rs PieceA for ValueFile"], cap=600)
+
 PROPS = {}
 
 
@@ -180,11 +216,10 @@ def prop(pid, harnesses, **kw):
     PROPS[pid] = kw
 
 
-prop("C09", [K_VSLOT, K_VSLOT_2G, K_KSLOT, K_KSLOT_16M, K_ROUNDUP],
+prop("C09_old", [K_VSLOT, K_VSLOT_2G, K_KSLOT, K_KSLOT_16M, K_ROUNDUP],
      bounds="value length <= 2^24 (quick) / 2^31-16 (thorough); key length <= 2^16 / 2^24; offsets < 2^56 / 2^64",
      outside=["lengths >= 2^31 (u32 arithmetic of the crate wraps; beyond the property's 'at least 16 MiB')"])
 prop("C10", K_INT + K_BYTES, bounds="all 64-bit integers; byte keys up to 8 bytes", outside=["memcmp on byte keys longer than 8 bytes"])
-prop("C06", [K_ROUNDUP, K_LISTS], bounds="", outside=[])
 
 R_M = "M-harness rule: one inductive step of the real dbxxx.rs from an arbitrary valid state; see DESIGN 2."
 prop("C01", [MB["put_new"], MB["put_over"], MB["del_hit"], MB["del_miss"], MB["lookup"], M_SETUP] + [M_KT("vu64", "thorough")[k] for k in ("put_new", "del_miss", "lookup")] + [M_KT("string", "thorough")[k] for k in ("put_new", "put_over", "del_hit")],
@@ -219,3 +254,28 @@ prop("C14", A_ALL, trusted_base=TB_COMMON + A_TB, rule="A-harness rule: the real
      bounds="batches of 3 (2 for the string variants); u64 keys (KT = DbU64); values of 0..2 bytes",
      outside=["batches longer than 3: bulk_* sort the batch with the standard library's sort (insertion sort below 20 elements, so no other code path up to 20) and then pop and call the primitive - the position bookkeeping is what is decided",
               "the exact behaviour of String::from_utf8_lossy (std)", "KT other than DbU64: the default methods are generic and use the key only through From<&Q> and Ord of Q"])
+
+R_R = "R-harness rule: one real record-level call from an arbitrary I1 image built from solver variables."
+del PROPS["C09_old"]
+prop("C06", [R_POPL, R_POPS, R_PUSH, R_VDEL, R_VREW, R_WALK, K_ROUNDUP, K_LISTS, R_VNEW, R_KREW, R_KNEW, MB["del_hit"]],
+     trusted_base=TB_COMMON + R_TB + M_TB, rule=R_R, bounds=R_ASSUME[0],
+     outside=["'file size bounded for a bounded live set' follows from the per-call rule (the file grows only if no suitable free slot exists) by a counting argument in DESIGN 4 C06 (prose)", "fragmentation behaviour of first fit on the large list beyond the rule itself",
+              "free lists longer than 3 entries in one inductive step"])
+prop("C09", [K_VSLOT, K_KSLOT, K_ROUNDUP, R_VREW, B_ZERO, B_ZEROL, K_VSLOT_2G, K_KSLOT_16M, R_VNEW, R_KREW, R_KNEW] + [c for c in B_CODEC if c.name in ("b_codec_vallen", "b_codec_keylen", "b_codec_size")],
+     trusted_base=TB_COMMON + R_TB + B_TB, rule=R_R,
+     bounds="sizing: value length <= 2^24 (quick) / 2^31-16 (thorough), key length <= 2^16 / 2^24, offsets < 2^56 / 2^64; record writes with neighbours: lengths <= 1300 (keys 300)",
+     outside=["lengths >= 2^31 (u32 arithmetic of the crate wraps; beyond the property's 'at least 16 MiB')", "payload bytes beyond the first 3 of a record at level R (the payload is one write_all_small call; its bytes are covered by the buffer model at level B)"])
+K_TOUCH = [H("k", "k_touch_size", "RecordSizeStats::touch_size keeps a strictly ascending histogram whose counts are the touches per value", cap=300, bounds="any 3 touches", functions=["filedb/mod.rs RecordSizeStats::touch_size"]),
+           H("k", "k_touch_length", "LengthStats::touch_length: same", cap=300, bounds="any 3 touches", functions=["filedb/mod.rs LengthStats::touch_length"])]
+prop("C17", [R_COUNT, R_WALK] + B_FILL + M_STATS + K_TOUCH, trusted_base=TB_COMMON + R_TB + B_TB + M_TB, rule=R_R + " " + R_B + " " + R_M, bounds=R_ASSUME[0] + "; tables of 2, 8 (16) buckets; " + M_BOUNDS,
+     outside=["keys_count_stats (returns an empty vector by construction)", "the buf_stats feature"])
+prop("C05", [MS["put_new"], MS["put_over"], MS["del_hit"], B_BUCKET[8], B_BUCKET[16], B_API[1], R_VDEL, R_PUSH, R_VREW, B_BUCKET[64], B_BUCKET[256], R_KREW, R_KNEW],
+     trusted_base=TB_COMMON + M_TB + B_TB + R_TB, rule="C05 is the conjunction I1 (record files, layer R) and I2 (chains, count, bitmap, value ownership: layers M and B), each asserted after one real call from an arbitrary valid state by a checker that shares no code with the crate",
+     bounds=M_BOUNDS + "; " + R_ASSUME[0] + "; tables of 8, 16 (64, 256) buckets", outside=["as C01 and C06"])
+prop("C15", [MS["lookup"], MB["del_miss"], M_ITER_X[2], M_ITER["keys"]] + M_STATS[:2] + [B_SCAN_SMALL[3], B_SCAN_G[32], B_FILL[1], B_HDRR[0], R_COUNT, R_WALK, M_ITER["values"], B_SCAN_G[128]],
+     trusted_base=TB_COMMON + M_TB + B_TB + R_TB, rule="every read-only entry point is run under a read-only latch in the store / buffer / file model: any write, length change or extension by a seek beyond the end is an assertion failure at the offending call",
+     bounds=M_BOUNDS + "; tables of 8, 32 (128) buckets; " + R_ASSUME[0],
+     outside=["whether rabuf re-writes clean chunks (it does not mark chunks dirty on reads: read from its source, not checked)", "bulk_get (= get per key: C14 shows it calls only get)"])
+prop("C18", B_HDRW + [R_PUSH, R_VREW, R_VDEL, R_POPS, B_ZERO, B_ZEROL, K_HASH()[0], MS["lookup"], R_VNEW, R_KREW, R_KNEW],
+     trusted_base=TB_COMMON + R_TB + B_TB, rule="determinism as non-interference: the code has no clock, randomness or unordered container of its own; what is decided is that every byte the crate leaves in a slot or header is a function of the call's arguments (I1: complete records, explicit zeros to the exact slot end, from ARBITRARY stale content), that placement has no hidden input, and that read-only calls write nothing (C15)",
+     bounds=R_ASSUME[0], outside=["rabuf's flush order (it sorts chunk offsets; dependency)", "process / directory independence of the OS"])
